@@ -1,13 +1,15 @@
 """C01 — stored events come back exactly; the store owns its copy."""
 import ast
 
+from ..rules_wrap import wrapper_rules
+
 from ..cfg import cfg_of
 from ..model import norm, walk_own
 from ..rules_codec import codec_peewee, codec_sqlite
 from ..rules_commit import check_no_rollback
-from ..rules_own import own_rules
+from ..rules_own import copy_protocol, own_rules
 from ..rules_read import pred_memory, pred_peewee, pred_sqlite
-from ..rules_store import ddl_facts, idalloc_memory, is_param_ref
+from ..rules_store import instance_state, ddl_facts, idalloc_memory, is_param_ref
 
 
 def bucket_insert(prog, rep):
@@ -42,11 +44,14 @@ def check(prog, rep):
     )
     rep.trusted_base = ["copy.deepcopy returns an object graph disjoint from its argument", "json.dumps / json.loads and SQLite hold no Python references", "peewee model instances do not alias the values assigned to their fields beyond immutable scalars/strings"]
     rep.not_decided = ["equality of the instant to the millisecond and of the duration to the microsecond for 1970..2100 (float * 1e6, INTEGER affinity, DECIMAL text, julianday): numeric, not visible in code shape"]
+    instance_state(prog, rep)
     own_rules(prog, rep)
+    copy_protocol(prog, rep)
     codec_sqlite(prog, rep)
     codec_peewee(prog, rep)
     ddl_facts(prog, rep)
     idalloc_memory(prog, rep)
+    wrapper_rules(prog, rep)
     bucket_insert(prog, rep)
     # an acknowledged insert stays: nothing rolls the shared open transaction back
     check_no_rollback(prog, rep)
